@@ -225,20 +225,47 @@ Fixpoint contains_sub (needle hay : text) : bool :=
 Definition ignore_condition (markers prefixes : list text) (t : text) : bool :=
   existsb (fun m => contains_sub m t) markers || existsb (fun p => starts_with p t) prefixes.
 
-(* CommentMasker::create_mask after the inner mask: iter_allowed . filter(!ignore) . collect() *)
-Fixpoint filter_ignored (markers prefixes : list text) (src : text) (m : list span) : res (list span) :=
+(* CommentMasker::create_mask after the inner mask:
+     iter_allowed . filter_map(|(span, text)| { if text.starts_with("#!") { .. } .. }) . collect()
+   A span whose text starts with the shebang prefix loses its first line only (the span is dropped when
+   it has no newline); what remains — or any other span — is kept iff the ignore condition is false.
+   `Span::new(span.start + line_len, span.end)` is the checked constructor. *)
+Fixpoint position {A} (p : A -> bool) (l : list A) : option nat :=
+  match l with
+  | [] => None
+  | x :: t => if p x then Some 0 else option_map S (position p t)
+  end.
+
+Definition is_nl (c : N) : bool := (c =? 10)%N.
+
+Definition filter_one (markers prefixes : list text) (shebang : text) (s : span) (content : text)
+  : res (option span) :=
+  if starts_with shebang content then
+    match position is_nl content with
+    | None => Ok None                                             (* `?` *)
+    | Some p =>
+        let line_len := p + 1 in
+        let rest := skipn line_len content in
+        do rest_span <- span_new (sstart s + line_len) (send s);
+        Ok (if ignore_condition markers prefixes rest then None else Some rest_span)
+    end
+  else Ok (if ignore_condition markers prefixes content then None else Some s).
+
+Fixpoint filter_ignored (markers prefixes : list text) (shebang : text) (src : text) (m : list span)
+  : res (list span) :=
   match m with
   | [] => Ok []
   | s :: t =>
       do content <- get_content s src;
-      do r <- filter_ignored markers prefixes src t;
-      if ignore_condition markers prefixes content then Ok r else Ok (s :: r)
+      do o <- filter_one markers prefixes shebang s content;
+      do r <- filter_ignored markers prefixes shebang src t;
+      Ok (match o with Some s' => s' :: r | None => r end)
   end.
 
-Definition comment_create_mask (is_whitespace : N -> bool) (markers prefixes : list text)
+Definition comment_create_mask (is_whitespace : N -> bool) (markers prefixes : list text) (shebang : text)
     (src : text) (nodes : list span) : res (list span) :=
   do m <- ts_create_mask is_whitespace src nodes;
-  do kept <- filter_ignored markers prefixes src m;
+  do kept <- filter_ignored markers prefixes shebang src m;
   mask_from_iter kept.
 
 (* ====================================================================================== *)
@@ -283,12 +310,6 @@ End MaskParse.
 
 Definition is_comment_character (c : N) : bool :=
   ((c =? 35) || (c =? 45) || (c =? 47) || (c =? 42) || (c =? 33))%N.     (* # - / * ! *)
-
-Fixpoint position {A} (p : A -> bool) (l : list A) : option nat :=
-  match l with
-  | [] => None
-  | x :: t => if p x then Some 0 else option_map S (position p t)
-  end.
 
 Section Comments.
   Variable is_whitespace : N -> bool.
@@ -374,22 +395,24 @@ Section Comments.
   Definition jsdoc_parse (src : text) : res (list tok) :=
     jsdoc_loop (length src) (split_lines src) 0.
 
-  (* Go::parse, as written: after a `go:` directive `actual.start` is advanced by the position of the
-     first newline OF THE WHOLE COMMENT but is then looked up in the ALREADY SLICED text *)
+  (* Go::parse: after a `go:` directive the directive line is skipped: `terminator` (the position of
+     the first newline of `source`) becomes the start of `actual`, both in `source` coordinates;
+     nothing is parsed when the comment has no newline or the newline is at/after actual.end.
+     (`actual.start = terminator` assigns the field: no Span::new check; get_content is the checked
+     slice.) *)
   Definition go_parse (src : text) : res (list tok) :=
     do actual <- without_initiators src;
     do actual_source <- get_content actual src;
     match actual_source with
     | 103%N :: 111%N :: 58%N :: _ =>                                  (* ['g','o',':', ..] *)
-        match position (fun c => (c =? 10)%N) src with
+        match position is_nl src with
         | None => Ok []
         | Some terminator =>
-            let actual' := mkspan (sstart actual + terminator) (send actual) in
-            do r <- try_get_content actual' actual_source;
-            match r with
-            | None => Ok []
-            | Some new_source => Ok (map (tpush (sstart actual')) (inner new_source))
-            end
+            if send actual <=? terminator then Ok []
+            else
+              let actual' := mkspan terminator (send actual) in
+              do new_source <- get_content actual' src;
+              Ok (map (tpush (sstart actual')) (inner new_source))
         end
     | _ => Ok (map (tpush (sstart actual)) (inner actual_source))
     end.
@@ -435,7 +458,7 @@ Inductive md_event :=
 | ESoftBreak
 | EHardBreak
 | ECodeLike (n : nat)   (* InlineMath | DisplayMath | Code, n = code.chars().count() *)
-| EText (n : nat)       (* n = text.chars().count() *)
+| EText (n : nat) (re : nat)   (* n = text.chars().count(), re = range.end (bytes) *)
 | EHtml (n : nat)       (* Html | InlineHtml *)
 | EOtherEvent.
 
@@ -450,6 +473,7 @@ Section Markdown.
   Variable lex : text -> list tok.         (* PlainEnglish *)
   Variable ignore_link_title : bool.
 
+  (* the body of the Text arm after `chunk_len` has been computed and found non-zero; n = chunk_len *)
   Definition md_text (src : text) (stack : list md_tag) (tc n : nat) : res (list tok) :=
     let unl := [mktok (span_new_with_len tc n) K_UNLINTABLE] in
     let lexed := do chunk <- slice_chk src tc (tc + n); Ok (map (tpush tc) (lex chunk)) in
@@ -463,8 +487,14 @@ Section Markdown.
         end
     end.
 
-  (* what one event pushes, given the current char cursor; the stack is a list with its top first *)
-  Definition md_event_step (src : text) (stack : list md_tag) (tc : nat) (ev : md_event)
+  (* chunk_len = text.chars().count().min(source_str[range.clone()].chars().count()): the str slice
+     panics unless range.start <= range.end lie on char boundaries *)
+  Definition md_chunk_len (bs : list N) (rs re n : nat) : res nat :=
+    do r <- str_slice bs rs re; Ok (Nat.min n (count_chars r)).
+
+  (* what one event pushes, given the current char cursor; the stack is a list with its top first;
+     bs = the UTF-8 bytes of the source, rs = range.start of the event *)
+  Definition md_event_step (src : text) (bs : list N) (rs : nat) (stack : list md_tag) (tc : nat) (ev : md_event)
     : res (list tok * list md_tag) :=
     match ev with
     | ESoftBreak => Ok ([mktok (span_new_with_len tc 1) K_NEWLINE1], stack)
@@ -475,7 +505,10 @@ Section Markdown.
     | EEndOther => Ok ([], tl stack)
     | ECodeLike n => Ok ([mktok (span_new_with_len tc n) K_UNLINTABLE], stack)
     | EHtml n => Ok ([mktok (span_new_with_len tc n) K_UNLINTABLE], stack)
-    | EText n => do o <- md_text src stack tc n; Ok (o, stack)
+    | EText n re =>
+        do chunk_len <- md_chunk_len bs rs re n;
+        if chunk_len =? 0 then Ok ([], stack)                       (* `continue` *)
+        else do o <- md_text src stack tc chunk_len; Ok (o, stack)
     | EOtherEvent => Ok ([], stack)
     end.
 
@@ -490,7 +523,7 @@ Section Markdown.
     | [] => Ok []
     | (ev, rs) :: rest =>
         do '(tb, tc) <- md_advance bs tb tc rs;
-        do '(out, stack) <- md_event_step src stack tc ev;
+        do '(out, stack) <- md_event_step src bs rs stack tc ev;
         do r <- md_loop src bs rest tb tc stack;
         Ok (out ++ r)
     end.
@@ -580,7 +613,8 @@ Section LHS.
 
   (* the mask before merge_whitespace_sep *)
   Definition lhs_raw_mask (want_text want_code : bool) (src : text) : res (list span) :=
-    do st <- lhs_loop want_text want_code (mklhs [] 0 false false) (split_lines src);
+    (* `let mut last_line_blank = true;`: the start of the file counts as a blank line *)
+    do st <- lhs_loop want_text want_code (mklhs [] 0 false true) (split_lines src);
     Ok (l_mask st).
 
   Definition lhs_create_mask (want_text want_code : bool) (src : text) : res (list span) :=
@@ -589,12 +623,24 @@ Section LHS.
 End LHS.
 
 (* ====================================================================================== *)
-(** * J. git commit: cut at the first '#' *)
+(** * J. git commit: cut at the first line that starts with '#' *)
 
-Definition git_commit_cut (src : text) : nat :=
-  match position (fun c => (c =? 35)%N) src with Some i => i | None => length src end.
-Definition git_commit_parse (inner : text -> list tok) (src : text) : list tok :=
-  inner (firstn (git_commit_cut src) src).
+(* source.iter().enumerate().position(|(i, c)| *c == '#' && (i == 0 || source[i - 1] == '\n'))
+     .unwrap_or(source.len());  `source[i - 1]` is a checked index *)
+Fixpoint git_scan (src : text) (i : nat) (rest : text) : res nat :=
+  match rest with
+  | [] => Ok (length src)
+  | c :: t =>
+      do hit <- (if (c =? 35)%N then
+                   if i =? 0 then Ok true
+                   else do p <- nth_chk src (i - 1); Ok (p =? 10)%N
+                 else Ok false);
+      if hit then Ok i else git_scan src (S i) t
+  end.
+Definition git_commit_cut (src : text) : res nat := git_scan src 0 src.
+(* &source[0..end] *)
+Definition git_commit_parse (inner : text -> list tok) (src : text) : res (list tok) :=
+  do e <- git_commit_cut src; do c <- slice_chk src 0 e; Ok (inner c).
 
 (* ====================================================================================== *)
 (** * K. the concrete Unicode White_Space table used by the extracted model (checked against
@@ -620,9 +666,9 @@ Definition run_b2c (t : text) (spans : list (nat * nat)) : option (list (nat * n
   opt pairs_of (byte_spans_to_char_spans (encode t) (spans_of spans)).
 Definition run_ts_mask (t : text) (nodes : list (nat * nat)) : option (list (nat * nat)) :=
   opt pairs_of (ts_create_mask ws_table t (spans_of nodes)).
-Definition run_comment_mask (markers prefixes : list text) (t : text) (nodes : list (nat * nat))
+Definition run_comment_mask (markers prefixes : list text) (shebang : text) (t : text) (nodes : list (nat * nat))
   : option (list (nat * nat)) :=
-  opt pairs_of (comment_create_mask ws_table markers prefixes t (spans_of nodes)).
+  opt pairs_of (comment_create_mask ws_table markers prefixes shebang t (spans_of nodes)).
 Definition run_merge_ws (t : text) (m : list (nat * nat)) : option (list (nat * nat)) :=
   opt pairs_of (merge_whitespace_sep ws_table t (spans_of m)).
 Definition run_push_all (m : list (nat * nat)) : option (list (nat * nat)) :=
@@ -672,4 +718,4 @@ Definition run_md_core (tbl : list (text * list (nat * nat * N))) (ilt : bool) (
     (evs : list (md_event * nat)) : option (list (nat * nat * N)) :=
   opt triples_of (md_parse_core (lookup_inner (tbl_of tbl)) ilt t evs).
 Definition run_ignore (markers prefixes : list text) (t : text) : bool := ignore_condition markers prefixes t.
-Definition run_git_cut (t : text) : nat := git_commit_cut t.
+Definition run_git_cut (t : text) : option nat := opt (fun x => x) (git_commit_cut t).
